@@ -60,7 +60,8 @@ def forced_specs(seed, tier):
                 jobs.append(("degenerate_target", sp, {}))
         # (f) the documented basic options, one at a time, in every mode
         for mode in gen.MODES:
-            for key, val in (("noise_size", 0.5), ("noise_size", 1e-3), ("tol_mesh", 1e-3), ("tol_fun", 1e-2), ("max_iter", 3), ("noise_final_samples", 4), ("complete_poll", True)):
+            for key, val in (("noise_size", 0.5), ("noise_size", 1e-3), ("tol_mesh", 1e-3), ("tol_fun", 1e-2), ("max_iter", 3), ("noise_final_samples", 4), ("complete_poll", True),
+                             ("display", "iter"), ("display", "full"), ("display", "final"), ("display", "notify")):
                 sp = gen.make_spec(rng, D=rng.choice([1, 2]), geom="box", mode=mode, cons=None)
                 sp["options"] = {"n_search": 32, "max_fun_evals": 25 if mode == "det" else 55, key: val}
                 jobs.append(("basic_option", sp, {}))
